@@ -43,7 +43,7 @@ FINISH = {None: None, "reversed": pools.order_reversed, "rot1": pools.order_rot(
 LAST = []       # the previous conversion of this process (class-level tables of the reader survive between objects)
 
 
-def run_case(ctx, rep, spec, gradp, reactions, floor, source, model, start=None, finish=None, check=True):
+def run_case(ctx, rep, spec, gradp, reactions, floor, source, model, start=None, finish=None, check=True, cli=False):
     from amr_kitchen.chk2plt.chk2plt import chk2plt
     root = ctx.newdir("c17_"); os.makedirs(root)
     chk = os.path.join(root, "chk00005")
@@ -51,7 +51,8 @@ def run_case(ctx, rep, spec, gradp, reactions, floor, source, model, start=None,
     before = tastelib.snapshot(chk)
     out = os.path.join(root, "out_plt")
     sp = SPNAMES[:spec["nspec"]]
-    case = {"spec": spec, "gradp": gradp, "reactions": reactions, "floor": floor, "source": source, "finish": finish}
+    case = {"spec": spec, "gradp": gradp, "reactions": reactions, "floor": floor, "source": source, "finish": finish, "cli": cli}
+    if cli: rep.count("console-script")
     case["previous"] = list(LAST)
     LAST[:] = [{k: v for k, v in case.items() if k != "previous"}]
     nonmono = any(k != "mono" for k in ["x"])  # layouts are random per subset; counted through features below
@@ -62,7 +63,18 @@ def run_case(ctx, rep, spec, gradp, reactions, floor, source, model, start=None,
     kw = dict(species=list(sp)) if source == "list" else dict(target_plotfile=make_ref_plotfile(ctx, ctx.rng, spec["nspec"], source), species=[])
     try:
         with alarm(300), quiet(), pools.controlled(start=start, finish=FINISH[finish]):
-            chk2plt(chk, gradp=gradp, species_reactions=reactions, floor_massfracs=floor, pltdir=out, **kw)
+            if cli:
+                # the console script: -ip / -f switch the pressure gradient / the flooring off, -ir switches the rates on
+                from .. import tools
+                argv = ["chk2plt", "-c", chk, "-o", out] + ([] if gradp else ["-ip"]) + (["-ir"] if reactions else []) + \
+                    ([] if floor else ["-f"])
+                argv += (["-s"] + list(sp)) if source == "list" else ["-p", kw["target_plotfile"]]
+                tools.run_main("amr_kitchen.chk2plt.cli", argv)
+            else:
+                chk2plt(chk, gradp=gradp, species_reactions=reactions, floor_massfracs=floor, pltdir=out, **kw)
+    except SystemExit as e:
+        rep.fail(f"the chk2plt console script exited ({e.code}) on a valid invocation", case)
+        return
     except Exception as e:
         rep.fail(f"chk2plt raised {type(e).__name__}: {e}", case,
                  keys=["chk2plt-integral-time"] if (float(spec["time"]) % 1 == 0 and isinstance(e, ValueError)
@@ -155,6 +167,12 @@ def run_case(ctx, rep, spec, gradp, reactions, floor, source, model, start=None,
             rep.tie(f"global header of the converted plotfile: {why} (whose parse-after-render law is proved)", case)
         else:
             rep.agree(); rep.count("header-theorem-applies")
+    mn = leanio.driver([{"op": "names", "tool": "chk2plt", "names": list(sp), "gradp": bool(gradp), "reactions": bool(reactions)}])[0]
+    if mn.get("fields") == Q["fields"]:
+        rep.agree()
+    else:
+        rep.tie("the field list of the converted plotfile differs from the Lean field list (C17.field_names_align)", case,
+                {"real": Q["fields"], "model": mn})
     m = leanio.driver([{"op": "chk2plt", "levels": lvrecs, "gradp": gradp, "reactions": reactions, "gradp_tags": gt, "ir_tags": it}])[0]
     ok = True
     for lv in range(nlev):
@@ -177,7 +195,7 @@ def run(ctx, rep, model=True):
                                    (True, True, False)][i % 5]
         source = ["list", "refY", "refIR"][i % 3]
         run_case(ctx, rep, spec, gradp, reactions, floor, source, model, start=[None, pools.order_reversed][i % 2],
-                 finish=[None, "reversed", "rot1"][(i // 2) % 3])
+                 finish=[None, "reversed", "rot1"][(i // 2) % 3], cli=(i % 4 == 1))
         if len(rep.violations) >= 10:
             return
 
@@ -187,4 +205,5 @@ def replay(ctx, rep, obj, model=True):
     for h in c.get("previous") or []:
         # the conversion that preceded the failing one in the same process
         run_case(ctx, rep, h["spec"], h["gradp"], h["reactions"], h["floor"], h["source"], False, finish=h.get("finish"), check=False)
-    run_case(ctx, rep, c["spec"], c["gradp"], c["reactions"], c["floor"], c["source"], model, finish=c.get("finish"))
+    run_case(ctx, rep, c["spec"], c["gradp"], c["reactions"], c["floor"], c["source"], model, finish=c.get("finish"),
+             cli=c.get("cli", False))
